@@ -198,7 +198,7 @@ PROPS = {
         assumptions=['pandas >= 3 copy-on-write semantics (measured in this sandbox); calls '
                      'listed under assumed_read_only_calls do not write their arguments']),
     'C18': dict(
-        rules=[diff.diff_orient, diff.diff_sym, diff.diff_scale, diff.diff_wrap_cols, diff.wrap_rules, diff.res_rules,
+        rules=[diff.diff_orient, diff.diff_sym, diff.diff_scale, diff.diff_cols, diff.diff_wrap_cols, diff.wrap_rules, diff.res_rules,
                geo.unit_const,
                errmodel.es_perturb, geo.geo_perturb],
         decided=['difference is +first -second on every path, whichever input is denser',
@@ -401,7 +401,8 @@ def run(ctx):
                                    lambda c: names.global_state(c, anchored),
                                    lambda c: names.field_state(c, anchored),
                                    lambda c: names.time_rtol(c, anchored),
-                                   lambda c: names.zero_by_sum(c, anchored)]
+                                   lambda c: names.zero_by_sum(c, anchored),
+                                   lambda c: dtype.dtype_narrow(c, anchored)]
     # shared mutable state in the anchored modules makes every for-all-inputs claim depend on the
     # calls made before (two seeds - C06 round 2, C05 round 5 - hid a work buffer in a class
     # constant): PUR-GLOBAL on the anchored modules, unless the property runs it already
